@@ -32,6 +32,39 @@ def main(out):
     okr = {'holder_selected_channel_reserve_satoshis', 'counterparty_selected_channel_reserve_satoshis'}
     okb = {'counterparty_balance_msat', 'holder_balance_msat'}
     if r1[1] not in okf or r2[1] not in okf or r3[2] not in okr or r3[0] not in okb: raise TranslateError('unexpected field in a receiver test: %s %s %s %s' % (r1[1], r2[1], r3[0], r3[2]))
+    # FundedChannel::update_add_htlc: the direct refusals BEFORE validate_update_add_htlc, and what an accepted add leaves behind
+    k = ch.find('pub fn update_add_htlc<F: FeeEstimator>(')
+    if k < 0: raise TranslateError('fn update_add_htlc not found')
+    u = ch[k:ch.find(' fn ', k + 10)]
+    def pos(pat, what):
+        ms = list(re.finditer(pat, u))
+        if len(ms) != 1: raise TranslateError('%s: expected exactly one match, found %d' % (what, len(ms)))
+        return ms[0]
+    u0 = pos(r'if msg\.amount_msat (==|<=|<) (\d+) \{ return Err\(ChannelError::close\("Remote side tried to send a 0-msat HTLC"', 'zero-amount test')
+    u1 = pos(r'if msg\.amount_msat (<=|<) self\.context\.(\w+) \{ return Err\(ChannelError::close\(format!\("Remote side tried to send less than our minimum HTLC value', 'htlc_minimum test')
+    u2 = pos(r'if self\.context\.next_counterparty_htlc_id (!=|<|>) msg\.htlc_id \{ return Err\(ChannelError::close\(format!\("Remote skipped HTLC ID', 'htlc_id test')
+    u3 = pos(r'if msg\.cltv_expiry (>=|>) (\d+) \{ return Err\(ChannelError::close\("Remote provided CLTV expiry in seconds', 'cltv_expiry test')
+    u4 = pos(r'core::iter::once\(&self\.funding\) \.chain\(self\.pending_funding\(\)\) \.try_for_each\(\|funding\| self\.context\.validate_update_add_htlc\(funding, msg, fee_estimator\)\)\?;', 'call of validate_update_add_htlc')
+    u5 = pos(r'self\.context\.next_counterparty_htlc_id \+= (\d+);', 'next_counterparty_htlc_id increment')
+    u6 = pos(r'self\.context\.pending_inbound_htlcs\.push\(InboundHTLCOutput \{ htlc_id: msg\.htlc_id, amount_msat: msg\.amount_msat, payment_hash: msg\.payment_hash, cltv_expiry: msg\.cltv_expiry, state: InboundHTLCState::(\w+)\(', 'push of the new inbound HTLC')
+    if not (u0.start() < u1.start() < u2.start() < u3.start() < u4.start() < u5.start() < u6.start()): raise TranslateError('update_add_htlc: the refusals / validate_update_add_htlc / state update changed order')
+    if u1.group(2) not in ('holder_htlc_minimum_msat', 'counterparty_htlc_minimum_msat'): raise TranslateError('unexpected field in the htlc_minimum test: %s' % u1.group(2))
+    if u5.group(1) != '1' or u6.group(1) != 'RemoteAnnounced': raise TranslateError('an accepted update_add_htlc no longer advances next_counterparty_htlc_id by 1 / pushes a RemoteAnnounced HTLC')
+    UOPS = {'==': '=', '<=': '≤', '<': '<', '!=': '≠', '>': '>', '>=': '≥'}
+    # ChannelContext::can_accept_incoming_htlc (the forwarding-time test; a refusal fails the HTLC back, not the channel)
+    from gen_htlc_tables import strip_logs
+    raw = open(os.path.join(REPO, 'lightning/src/ln/channel.rs')).read()
+    kk = raw.find('\tfn can_accept_incoming_htlc<L: Logger>(')
+    if kk < 0: raise TranslateError('fn can_accept_incoming_htlc not found')
+    c = ' '.join(strip_logs(strip_comments(raw[kk:raw.find('\n\t}\n', kk)])).split())
+    c0 = one(r'let fee_spike_buffer_htlc = if funding\.get_channel_type\(\)\.supports_anchor_zero_fee_commitments\(\) \{ (\d+) \} else \{ (\d+) \};', c, 'can_accept fee_spike_buffer_htlc')
+    c1 = one(r'let include_counterparty_unknown_htlcs = (true|false);', c, 'can_accept include_counterparty_unknown_htlcs')
+    if 'let feerate = cmp::max(self.feerate_per_kw, self.pending_update_fee.map(|(fee, _)| fee).unwrap_or(0));' not in c: raise TranslateError('can_accept feerate changed')
+    c2 = re.findall(r'if (remote|local)_stats\.commitment_stats\.dust_exposure_msat (>=|>) max_dust_htlc_exposure_msat \{ return Err\(LocalHTLCFailureReason::(\w+)\); \}', c)
+    if [x[0] for x in c2] != ['remote', 'local'] or [x[2] for x in c2] != ['DustLimitCounterparty', 'DustLimitHolder']: raise TranslateError('can_accept dust exposure tests changed: %s' % c2)
+    c3 = one(r'if (!?)funding\.is_outbound\(\) \{ let \(remote_stats, _remote_htlcs\) = self \.get_next_remote_commitment_stats\( funding, None, include_counterparty_unknown_htlcs, fee_spike_buffer_htlc, feerate, (true|false), dust_exposure_limiting_feerate, \) \.map_err\(\|\(\)\| \{ LocalHTLCFailureReason::FeeSpikeBuffer \}\)\?; if remote_stats\.commitment_stats\.(\w+) (<=|<) funding\.(\w+) \* (\d+) \{ return Err\(LocalHTLCFailureReason::FeeSpikeBuffer\); \} \} Ok\(\(\)\)', c, 'can_accept fee-spike-buffer branch')
+    if c3[2] not in okb or c3[4] not in okr: raise TranslateError('unexpected field in the fee-spike-buffer test: %s %s' % (c3[2], c3[4]))
+    if len(re.findall(r'get_next_(?:local|remote)_commitment_stats\( funding, None, include_counterparty_unknown_htlcs, fee_spike_buffer_htlc, feerate, (?:true|false), dust_exposure_limiting_feerate, \)', c)) != 3: raise TranslateError('can_accept: the three statistics calls changed')
     tb = ' '.join(strip_comments(open(os.path.join(REPO, 'lightning/src/sign/tx_builder.rs')).read()).split())
     j = tb.find('fn get_available_balances(')
     if j < 0: raise TranslateError('fn get_available_balances not found')
@@ -44,7 +77,8 @@ def main(out):
          'namespace Ldk.RecvAdmit', '',
          '/-- the channel parameters one node holds (names as in ChannelContext / FundingScope / ChannelConstraints) -/',
          'structure Params where', '  holder_max_accepted_htlcs : Nat', '  holder_max_htlc_value_in_flight_msat : Nat', '  holder_selected_channel_reserve_satoshis : Nat',
-         '  counterparty_max_accepted_htlcs : Nat', '  counterparty_max_htlc_value_in_flight_msat : Nat', '  counterparty_selected_channel_reserve_satoshis : Nat', '',
+         '  counterparty_max_accepted_htlcs : Nat', '  counterparty_max_htlc_value_in_flight_msat : Nat', '  counterparty_selected_channel_reserve_satoshis : Nat',
+         '  holder_htlc_minimum_msat : Nat', '  counterparty_htlc_minimum_msat : Nat', '',
          '/-- what the receiver computes from its next REMOTE commitment statistics with the new HTLC included -/',
          'structure RecvView where', '  inbound_htlcs_count : Nat', '  inbound_htlcs_value_msat : Nat', '  counterparty_balance_msat : Nat', '  holder_balance_msat : Nat', '',
          '/-- validate_update_add_htlc (translated): the four direct refusals, in source order -/',
@@ -61,6 +95,29 @@ def main(out):
          'def senderInFlightCap (p : Params) (outbound_htlcs_value_msat : Nat) : Nat := p.%s - outbound_htlcs_value_msat' % s2, '',
          '/-- get_available_balances (translated): the limit is zeroed when `outbound count + %s %s channel_constraints.%s` -/' % s3,
          'def senderCountOk (p : Params) (outbound_htlcs_count : Nat) : Bool := !(decide (outbound_htlcs_count + %s %s p.%s))' % (s3[0], OPS[s3[1]], s3[2]), '',
+         '/-- FundedChannel::update_add_htlc (translated): the direct refusals that precede validate_update_add_htlc, in source order',
+         '    (amount 0, below our htlc_minimum_msat, skipped HTLC id, CLTV in seconds) -/',
+         'def recvAddPrechecks (p : Params) (amount_msat htlc_id next_counterparty_htlc_id cltv_expiry : Nat) : Bool :=',
+         '  !(decide (amount_msat %s %s)) &&' % (UOPS[u0.group(1)], u0.group(2)),
+         '  !(decide (amount_msat %s p.%s)) &&' % (UOPS[u1.group(1)], u1.group(2)),
+         '  !(decide (next_counterparty_htlc_id %s htlc_id)) &&' % UOPS[u2.group(1)],
+         '  !(decide (cltv_expiry %s %s))' % (UOPS[u3.group(1)], u3.group(2)), '',
+         '/-- an accepted update_add_htlc: `next_counterparty_htlc_id += %s`, the HTLC is pushed as %s (pinned, after all refusals) -/' % (u5.group(1), u6.group(1)),
+         'def recvAddIdStep : Nat := %s' % u5.group(1), '',
+         '/-- can_accept_incoming_htlc (translated): `fee_spike_buffer_htlc`, `include_counterparty_unknown_htlcs`, `feerate` -/',
+         'def canAcceptFeeSpikeBufferHtlcs (zero_fee_commitments : Bool) : Nat := if zero_fee_commitments then %s else %s' % (c0[0], c0[1]),
+         'def canAcceptIncludesUnknownHtlcs : Bool := %s' % c1,
+         'def canAcceptFeerate (feerate_per_kw : Nat) (pending_update_fee : Option Nat) : Nat := Nat.max feerate_per_kw (pending_update_fee.getD 0)', '',
+         '/-- can_accept_incoming_htlc (translated): the decision once the statistics are known. 0 = Ok, 1 = DustLimitCounterparty, 2 = DustLimitHolder,',
+         '    3 = FeeSpikeBuffer. `spike_%s` = that field of the next remote commitment statistics with `assume_fee_spike = %s`' % (c3[2], c3[1]),
+         '    (none = the statistics fail), consulted only when `%sfunding.is_outbound()` -/' % c3[0],
+         'def canAcceptDecision (p : Params) (is_outbound : Bool) (max_dust_htlc_exposure_msat remote_dust_exposure_msat local_dust_exposure_msat : Nat) (spike_%s : Option Nat) : Nat :=' % c3[2],
+         '  if remote_dust_exposure_msat %s max_dust_htlc_exposure_msat then 1 else' % OPS[c2[0][1]],
+         '  if local_dust_exposure_msat %s max_dust_htlc_exposure_msat then 2 else' % OPS[c2[1][1]],
+         '  if %sis_outbound then (match spike_%s with' % ('!' if c3[0] else '', c3[2]),
+         '    | none => 3',
+         '    | some bal => if bal %s p.%s * %s then 3 else 0) else 0' % (OPS[c3[3]], c3[4], c3[5]),
+         'def canAcceptSpikeAssumed : Bool := %s' % c3[1], '',
          'end Ldk.RecvAdmit', '']
     text = '\n'.join(L)
     if not os.path.exists(out) or open(out).read() != text: open(out, 'w').write(text)
